@@ -94,6 +94,15 @@ def size_case(c):
     return len(json.dumps(c["type"])) + len(json.dumps(c["value"]))
 
 
+def has_spare_capacity(v):
+    if isinstance(v, dict):
+        if "cap" in v: return True
+        return any(has_spare_capacity(x) for x in v.values())
+    if isinstance(v, list):
+        return any(has_spare_capacity(x) for x in v)
+    return False
+
+
 def expected_readback(c):
     return G.strip_sizes(c["value"])
 
@@ -105,9 +114,10 @@ def judge(pid, c, r, coq_code):
         return ("%s/harness-problem/%s" % (pid, r.get("stage")), "harness could not prepare the case: %s" % r.get("msg"))
     if r.get("stage") == "construct":
         if pid == "C01":
+            if form == "xobj" and r["exc"] == "ValueError" and has_spare_capacity(c["value"]) and t["k"] == "array":
+                return ("C01/copy-of-array-holding-strings-with-spare-capacity-raises-ValueError",
+                        "T(existing_array) recomputes the layout from the item values and refuses the copy: %s" % r.get("msg"))
             return ("C01/construct-raises-%s/%s/%s" % (r["exc"], form, st), "constructing a valid value raised %s" % r.get("msg"))
-        if pid == "C03" and r["after"] != r["before"]:
-            return ("C03/failed-construction-modified-buffer/%s/%s" % (form, st), "construction raised but the buffer changed")
         return None
     exp = expected_readback(c)
     uninit = form == "dims"
